@@ -183,6 +183,216 @@ def judge(chk, c, obs, dropped, miri_obs=None):
         chk.sample({"case": c.cid, "source": c.text, "observations": total}, limit=3)
 
 
+# ---- second family: plain field types, reference-typed designated fields with unsized referents, PhantomData decoys,
+# same-typed neighbours.  class -> (Target type, [(field type, reference depth, mutable)], value expr of the referent
+# with {i}, expression writing through `m: &mut Target`, value expr after the write)
+LEAK, LEAKM = RT + "leak", RT + "leak_mut"
+CLASSES = {
+    "u32": ("u32", [("u32", 0, True), ("&'a u32", 1, False), ("&'a &'a u32", 2, False), ("&'a mut u32", 1, True)],
+            "{i}u32 + 100", "*m = 777;", "777u32"),
+    "slice": ("[u16]", [("&'a [u16]", 1, False), ("&'a mut [u16]", 1, True), ("&'a &'a [u16]", 2, False)],
+              "[{i}u16, 7, 9]", "m[0] = 777;", "[777u16, 7, 9]"),
+    "str": ("str", [("&'static str", 1, False), ("&'a &'static str", 2, False)],
+            "[\"p\", \"q\", \"r\", \"s\", \"t\", \"u\", \"v\", \"w\", \"x\", \"y\"][{i}]", None, None),
+    "dyn": ("dyn ::core::fmt::Debug", [("&'static dyn ::core::fmt::Debug", 1, False)], "{i}u64 + 500", None, None),
+    "box": ("::std::boxed::Box<u32>", [("::std::boxed::Box<u32>", 0, True), ("&'a ::std::boxed::Box<u32>", 1, False),
+                                      ("&'a mut ::std::boxed::Box<u32>", 1, True)],
+            "::std::boxed::Box::new({i}u32 + 200)", "**m = 777;", "::std::boxed::Box::new(777u32)"),
+    "arr": ("[u8; 4]", [("[u8; 4]", 0, True), ("&'a [u8; 4]", 1, False), ("&'a mut [u8; 4]", 1, True)],
+            "[{i}u8, 1, 2, 3]", "m[3] = 99;", "[{i}u8, 1, 2, 99]"),
+}
+RDECOYS = [("::core::marker::PhantomData<u8>", "::core::marker::PhantomData"),
+           ("::core::marker::PhantomData<fn() -> u8>", "::core::marker::PhantomData"),
+           ("bool", "true"), ("u64", "{i}u64"), ("()", "()"), ("::std::vec::Vec<u8>", "vec![{i}u8]")]
+
+
+def rich_field_expr(ft, depth, mutable, val):
+    """constructor expression of a field of (reference) type `ft` whose referent is `val`"""
+    if depth == 0:
+        return val
+    if "str" in ft and depth == 1:
+        return val
+    inner = val
+    if "dyn" in ft:
+        return "%s(%s)" % (LEAK, val)
+    e = "%s(%s)" % (LEAKM if (mutable and depth == 1) else LEAK, inner)
+    for _ in range(depth - 1):
+        e = "%s(%s)" % (LEAK, e)
+    if "str" in ft:   # &'a &'static str
+        return "%s(%s)" % (LEAK, val)
+    return e
+
+
+def rich_case(seed, k):
+    rng = rng_for(seed, PROP, "rich", k)
+    cls = rng.choice(sorted(CLASSES))
+    target, ftypes, val, write, after = CLASSES[cls]
+    mut = write is not None and rng.random() < 0.6
+    kind = rng.choice(["struct", "enum", "enum"])
+    nv = 1 if kind == "struct" else rng.randint(1, 3)
+    variants = []
+    for vi in range(nv):
+        named = rng.random() < 0.5
+        n = rng.randint(1, 5)
+        fields = []
+        for i in range(n):
+            r = rng.random()
+            if r < 0.45:
+                # a same-typed neighbour of the designated fields (an off-by-one then still type-checks)
+                ft, depth, m = rng.choice(ftypes)
+                fields.append({"ty": ft, "depth": depth, "mutable": m, "cls": True})
+            else:
+                ty, v = rng.choice(RDECOYS)
+                fields.append({"ty": ty, "val": v, "cls": False})
+        d = rng.randrange(n)
+        dm = d if rng.random() < 0.5 else rng.randrange(n)
+        ft, depth, m = rng.choice(ftypes)
+        fields[d] = {"ty": ft, "depth": depth, "mutable": m, "cls": True}
+        if mut:
+            cands = [t for t in ftypes if t[2]]
+            if dm != d or not fields[d]["mutable"]:
+                ft, depth, m = rng.choice(cands)
+                fields[dm] = {"ty": ft, "depth": depth, "mutable": m, "cls": True}
+        for i, f in enumerate(fields):
+            f["i"] = i
+            f["name"] = "f%d" % i if named else None
+            if f["cls"]:
+                f["val"] = None
+        sole = n == 1 and rng.random() < 0.5
+        variants.append({"name": "V%d" % vi, "named": named, "fields": fields, "d": d, "dm": dm if mut else None, "sole": sole})
+    lt = any("'a" in f["ty"] for v in variants for f in v["fields"])
+    decl = "<'a>" if lt else ""
+    inst = "<'static>" if lt else ""
+
+    def fdecl(v, f, vis):
+        marks = []
+        if not v["sole"]:
+            if f["i"] == v["d"]:
+                marks.append("Deref")
+            if mut and f["i"] == v["dm"]:
+                marks.append("DerefMut")
+        rng.shuffle(marks)
+        a = ""
+        if marks:
+            a = "#[educe(%s)] " % ", ".join(marks) if rng.random() < 0.6 else "".join("#[educe(%s)] " % m for m in marks)
+        return "%s%s%s%s" % (a, vis, (f["name"] + ": ") if f["name"] else "", f["ty"])
+    traits = ["Deref"] + (["DerefMut"] if mut else [])
+    rng.shuffle(traits)
+    head = "#[derive(::educe::Educe, Debug)]\n#[educe(%s)]\n" % ", ".join(traits)
+    if kind == "struct":
+        v = variants[0]
+        body = "".join("    %s,\n" % fdecl(v, f, "pub ") for f in v["fields"])
+        text = head + ("pub struct Ty%s {\n%s}\n" % (decl, body) if v["named"] else "pub struct Ty%s(\n%s);\n" % (decl, body))
+    else:
+        vs = []
+        for v in variants:
+            body = "".join("        %s,\n" % fdecl(v, f, "") for f in v["fields"])
+            vs.append("    %s %s\n%s    %s,\n" % (v["name"], "{" if v["named"] else "(", body, "}" if v["named"] else ")"))
+        text = head + "pub enum Ty%s {\n%s}\n" % (decl, "".join(vs))
+
+    def ctor(v, written):
+        exprs = []
+        for f in v["fields"]:
+            if f["cls"]:
+                referent = val.format(i=f["i"] + 1)
+                if written and f["i"] == v["dm"]:
+                    referent = after.format(i=f["i"] + 1)
+                exprs.append(rich_field_expr(f["ty"], f["depth"], f["mutable"], referent))
+            else:
+                exprs.append(f["val"].format(i=f["i"] + 1))
+        path = "Ty::%s" % v["name"] if kind == "enum" else "Ty"
+        if v["named"]:
+            return "%s { %s }" % (path, ", ".join("%s: %s" % (f["name"], e) for f, e in zip(v["fields"], exprs)))
+        return "%s(%s)" % (path, ", ".join(exprs))
+
+    def pat(v, which):
+        f = v["fields"][which]
+        path = "Ty::%s" % v["name"] if kind == "enum" else "Ty"
+        if v["named"]:
+            return "%s { %s: g, .. }" % (path, f["name"])
+        return "%s(%sg, ..)" % (path, "_, " * which)
+    gl, drive = [], []
+    for vi, v in enumerate(variants):
+        gl.append("pub fn mk%d() -> Ty%s { %s }\n" % (vi, inst, ctor(v, False)))
+        if mut:
+            gl.append("pub fn mk_after%d() -> Ty%s { %s }\n" % (vi, inst, ctor(v, True)))
+    for tr, key in (("deref", "d"), ("derefmut", "dm")):
+        if key == "dm" and not mut:
+            continue
+        arms = []
+        for v in variants:
+            f = v["fields"][v[key]]
+            arms.append("        %s => { let t: &%s = &%sg; %saddr_size(t) }" % (pat(v, v[key]), target, "*" * (f["depth"] + 1), RT))
+        gl.append("#[allow(unreachable_patterns, unused_variables)]\npub fn want_%s(x: &Ty%s) -> (usize, usize) {\n    match x {\n%s\n"
+                  "        _ => (0, 0),\n    }\n}\n" % (tr, inst, "\n".join(arms)))
+    for vi, v in enumerate(variants):
+        drive.append("""        {
+            let x = mk%d();
+            %sbegin();
+            let got = %saddr_size(::core::ops::Deref::deref(&x));
+            let t: &%s = &*x;
+            %sobs("h%d", "rderef", %d, -1, &format!("{}\\t{:?}\\t{:?}\\t{:?}", (got == want_deref(&x)) as u8, got, want_deref(&x), t));
+        }""" % (vi, RT, RT, target, RT, k, vi))
+        if mut:
+            drive.append("""        {
+            let mut x = mk%d();
+            %sbegin();
+            let got = { let m = ::core::ops::DerefMut::deref_mut(&mut x); %saddr_size(&*m) };
+            let same = got == want_derefmut(&x);
+            { let m: &mut %s = &mut *x; %s }
+            %sobs("h%d", "rderefmut", %d, -1, &format!("{}\\t{:?}\\t{:?}", same as u8, x, mk_after%d()));
+        }""" % (vi, RT, RT, target, write, RT, k, vi, vi))
+    c = BH.Case("h%d" % k, None, text, [], glue="".join(gl), drive="\n".join(drive),
+                info={"rich": True, "mut": mut, "cls": cls, "kind": kind, "n": len(variants) * (2 if mut else 1),
+                      "multi": any(len(v["fields"]) >= 2 for v in variants)})
+    c.module = lambda c=c: H.module(c.cid, c.text + c.glue + "pub fn run() {\n    %sguarded(\"%s\", || {\n%s\n    });\n}\n"
+                                    % (RT, c.cid, c.drive))
+    return c
+
+
+def judge_rich(chk, c, obs, dropped, miri_obs=None):
+    if c.cid in dropped:
+        d = dropped[c.cid][0]
+        chk.violation("rich-refused|%s|%s" % (c.info["cls"], d.get("code") or d["message"][:50]),
+                      "a Deref/DerefMut request on plain field types does not compile:\n%s\n%s"
+                      % (d.get("rendered") or d["message"], c.text), {"case.rs": c.module()})
+        return
+    files = {"case.rs": c.module()}
+    total = 0
+    for which, ob in (("native", obs), ("miri", miri_obs)):
+        if ob is None:
+            continue
+        o = ob.get(c.cid)
+        if o is None or not o.began:
+            if which == "native":
+                chk.inconc("not-run")
+                return
+            continue
+        if o.panic is not None or not o.ended:
+            if which == "miri" and o.panic is None:
+                continue
+            chk.violation("panic|" + (o.panic or "abort")[:60], "deref panicked/aborted (%s): %s\n%s" % (which, o.panic, c.text), files)
+            return
+        if len(o.recs) != c.info["n"]:
+            chk.inconc("incomplete-output")
+            return
+        for op, i, j, res, ev in o.recs:
+            total += 1
+            if op == "rderef" and res[0] != "1":
+                chk.violation("deref-target|rich|%s" % c.info["cls"], "&*x (variant %d) is not the designated field's storage / referent (%s)\n"
+                              "(address, size) observed %s, designated %s, value seen %s\n%s" % (i, which, res[1], res[2], res[3], c.text), files)
+                return
+            if op == "rderefmut" and (res[0] != "1" or res[1] != res[2]):
+                chk.violation("derefmut-target|rich|%s" % c.info["cls"], "&mut *x (variant %d) is not the designated field, or the write changed "
+                              "something else (%s)\nsame address: %s\nafter the write: %s\nexpected:        %s\n%s"
+                              % (i, which, res[0], res[1], res[2], c.text), files)
+                return
+    chk.held(digest(c.text), c.info["multi"], total)
+    chk.count("rich/%s/%s/mut=%s" % (c.info["cls"], c.info["kind"], c.info["mut"]))
+    if c.info["multi"]:
+        chk.sample({"case": c.cid, "source": c.text, "observations": total}, limit=5)
+
+
 def main(tier, seed, scale=1.0):
     chk = Check(PROP, tier, seed)
     n = int((320 if tier == "quick" else 5000) * scale)
@@ -193,6 +403,7 @@ def main(tier, seed, scale=1.0):
                 "non-trivial = some variant has >= 2 fields; distinct by source text")
     chk.assumptions = ["field addresses come from a generator-written match accessor"]
     cases = [gen_case(seed, k) for k in range(n)]
+    cases = [x for pair in zip(cases, [rich_case(seed, k) for k in range(n)]) for x in pair]
     obs, dropped, crashed, _, _ = BH.execute("c09", cases)
     for b, (rc, err) in crashed.items():
         log("C09: binary %s exited with %s: %s" % (b, rc, err[-500:]))
@@ -211,5 +422,5 @@ def main(tier, seed, scale=1.0):
     chk.extra["miri_cases"] = len([c for c in mcases if c.cid in miri_obs])
     ms = set(c.cid for c in mcases)
     for c in cases:
-        judge(chk, c, obs, dropped, miri_obs if c.cid in ms else None)
+        (judge_rich if c.info.get("rich") else judge)(chk, c, obs, dropped, miri_obs if c.cid in ms else None)
     return chk.finish()
